@@ -596,6 +596,12 @@ func (c *Ctx) ruleMimeAndSVG() {
 var _ = ast.Inspect
 
 func init() {
+	mutant(&Mutant{Name: "c17-table-closes-paragraph", Property: "C17", File: "html/table.go",
+		Old: "\tTable:      blockTag, // a table does not close a paragraph in quirks mode\n", New: "\tTable:      blockTag | omitPTag,\n",
+		Rule: "R17.htmltraits", Construct: "html.tagMap[Table]"})
+	mutant(&Mutant{Name: "c17-slot-end-tag-closes-paragraph", Property: "C17", File: "html/table.go",
+		Old: "\tSlot:       normalTag | keepPTag,\n", New: "\tSlot:       normalTag,\n",
+		Rule: "R17.htmltraits", Construct: "keepPTag ⊇ slot"})
 	mutant(&Mutant{Name: "c17-pattern-trimmed", Property: "C17", File: "html/table.go",
 		Old: "\tOptimum:                  trimAttr, // float\n", New: "\tOptimum:                  trimAttr, // float\n\tPattern:                  trimAttr, // regex\n",
 		Rule: "R17.htmltraits", Construct: "attrMap[Pattern]"})
